@@ -78,6 +78,9 @@ type Backend struct {
 	Override func(kind, arg string) (err error, ok bool)
 	// Anomalies lists things no backend should ever see (reported by Obs.Sanity and the other engines).
 	Anomalies []string
+	// ConcurrentClose: the scenario calls Server.Close/Shutdown from another goroutine (engine X worlds);
+	// overlaps are then judged by the scenario itself (a DATA delivery cannot be joined by Close).
+	ConcurrentClose bool
 	// Overlaps lists Reset/Logout calls that began while a delivery on the same session was running.
 	Overlaps []string
 	// Probe, if set, is called inside NewSession with the Conn.
@@ -259,7 +262,12 @@ func (s *sess) Rcpt(to string, opts *smtp.RcptOptions) (err error) {
 func (s *sess) noteOverlap(kind string) {
 	s.b.mu.Lock()
 	if s.inData > 0 {
-		s.b.Overlaps = append(s.b.Overlaps, fmt.Sprintf("%s began on session #%d while its Data call was still running", kind, s.id))
+		msg := fmt.Sprintf("%s began on session #%d while its Data call was still running", kind, s.id)
+		s.b.Overlaps = append(s.b.Overlaps, msg)
+		if !s.b.ConcurrentClose {
+			// without a Server.Close from another goroutine nothing excuses this: an anomaly for every engine
+			s.b.Anomalies = append(s.b.Anomalies, msg)
+		}
 	}
 	s.b.mu.Unlock()
 }
